@@ -703,13 +703,10 @@ def _driver_summary(model, dom, nt_value):
     from . import integrate_kit as ik
     from ..interp import Intrinsic, Obj
 
-    def opaque(name):
-        return Intrinsic(name, lambda it, args, kwargs, node, fi: nf.fn(
-            name, *[a for a in list(args) + [kwargs[k] for k in sorted(kwargs)] if isinstance(a, (Rat, Fraction, int))]))
     sde_attrs = {"noise_type": nt_value, "sde_type": dom.sde_types.get("ito")}
-    for m in ("f", "g", "f_and_g", "g_prod", "f_and_g_prod", "prod", "g_prod_and_gdg_prod", "dg_ga_jvp_column_sum", "gdg_prod"):
-        sde_attrs[m] = opaque("SDE." + m)
-    attrs = {"sde": Obj("sde", attrs=sde_attrs), "bm": opaque("BM")}
+    for m in ik.SDE_METHODS:
+        sde_attrs[m] = ik.opaque_call("SDE." + m)
+    attrs = {"sde": Obj("sde", attrs=sde_attrs)}
     fi, prologue, for_node, while_node, tail, epilogue = ik.loop_structure(model)
     out = {}
     for adaptive in (False, True):
